@@ -2371,6 +2371,15 @@ def BHJM_cylinder_segment(
     # transform dim deg->rad
     phi1 = phi1 / 180 * np.pi
     phi2 = phi2 / 180 * np.pi
+    # shift angle ranges that leave [-2pi, 2pi] back by full turns (inside/surface masks below
+    # compare with the observer azimuth and its 2pi-shifted copy only)
+    turns = np.where(
+        phi2 > 2 * np.pi,
+        np.ceil((phi2 - 2 * np.pi) / (2 * np.pi)),
+        np.where(phi1 < -2 * np.pi, -np.ceil((-2 * np.pi - phi1) / (2 * np.pi)), 0.0),
+    )
+    phi1 = phi1 - 2 * np.pi * turns
+    phi2 = phi2 - 2 * np.pi * turns
     dim = np.array([r1, r2, phi1, phi2, z1, z2]).T
 
     # transform obs_pos to Cy CS --------------------------------------------
